@@ -52,6 +52,16 @@ func mwBlock(n int) []mwOp {
 	return ops
 }
 
+// mwBlockFrom draws n arbitrary writes whose keys come from a concrete set (arbitrary values):
+// used where several writes per block would otherwise multiply the tree-shape case splits.
+func mwBlockFrom(n int, keys [][]byte) []mwOp {
+	ops := make([]mwOp, n)
+	for i := range ops {
+		ops[i] = mwOp{toB: v.Choice(2) == 1, del: v.Choice(2) == 1, k: keys[v.Choice(len(keys))], val: v.Bytes(1)}
+	}
+	return ops
+}
+
 func mwApply(rs *Store, ops []mwOp) {
 	for _, o := range ops {
 		st := rs.GetKVStore(mwA)
